@@ -28,6 +28,7 @@ type task struct {
 	yields int64
 	prio   int
 	fn     func()
+	daemon bool // started by the code under test (a `go` statement), not by the world
 
 	panicVal   string
 	panicStack string
@@ -79,8 +80,9 @@ type Result struct {
 	Panics    []TaskPanic
 	SimTime   time.Duration
 	ILHash    uint64 // hash of the context-switch sequence (from,to,yield#)
-	ParkedHoldingLock int // number of times a task was parked at a yield (lock probes are harness-level)
 	Arrivals  int
+	Spawned   int // goroutines started by the code under test that were adopted as tasks
+	HooksFired int
 }
 
 // Sim is the state of the one simulation active in this process.
@@ -95,6 +97,9 @@ type Sim struct {
 	change  map[int64]int
 	seq     uint64
 	pending *Preempt
+	once    []*onceState
+	hookAt  int64
+	hookFn  func()
 	res     *Result
 	wg      sync.WaitGroup
 	mapRng  uint64
@@ -173,6 +178,12 @@ func Yield(site uint32) {
 	t.yields++
 	s.step++
 	s.res.Yields++
+	if s.hookFn != nil && s.step >= s.hookAt {
+		fn := s.hookFn
+		s.hookFn = nil
+		s.res.HooksFired++
+		fn()
+	}
 	if s.cfg.Replay != nil {
 		if to, ok := s.pre[[2]int64{int64(t.id), t.yields}]; ok {
 			s.pending = &Preempt{T: t.id, N: t.yields, To: to}
@@ -245,6 +256,89 @@ func bump() {
 	}
 }
 
+type onceState struct {
+	key    any
+	done   bool
+	runner *task
+}
+
+// onceOf: a linear scan over a slice — Go's map runtime reports accesses to the race
+// detector on behalf of its caller, even from a norace function.
+//
+//go:norace
+func (s *Sim) onceOf(key any) *onceState {
+	for _, st := range s.once {
+		if st.key == key {
+			return st
+		}
+	}
+	st := &onceState{key: key}
+	s.once = append(s.once, st)
+	return st
+}
+
+// OnceDo replaces X.Do(f) on a sync.Once in the instrumented copy. The real Once holds a
+// real mutex while f runs; a second task calling Do while the first is parked inside f
+// would block on that mutex, which the simulator cannot see. Here the second task waits
+// like on a simulated lock and enters the real Do only when it returns immediately (its
+// atomic fast path still gives the race detector the happens-before edge).
+//
+//go:norace
+func OnceDo(key any, do func(func()), f func()) {
+	s, t := lookup()
+	if s == nil || t == nil {
+		do(f)
+		return
+	}
+	s.arrive(t)
+	var st *onceState
+	for {
+		st = s.onceOf(key)
+		if st.done || st.runner == nil || st.runner == t {
+			break
+		}
+		t.epoch = epochCtr
+		s.handoff(t, stBlocked)
+	}
+	if st.done || st.runner == t {
+		do(f)
+		return
+	}
+	st.runner = t
+	defer onceFinish(st)
+	do(f)
+}
+
+//go:norace
+func onceFinish(st *onceState) {
+	st.done = true
+	st.runner = nil
+	epochCtr++
+}
+
+// ArmHook schedules fn (a fault: cancel a context, ...) to run when the simulation has passed
+// k more statements of the code under test, in whichever task is running then. Disarm removes
+// a hook that has not fired. Both are called by the running task.
+//
+//go:norace
+func ArmHook(k int64, fn func()) {
+	s := cur
+	if s == nil {
+		return
+	}
+	s.hookAt, s.hookFn = s.step+k, fn
+}
+
+//go:norace
+func DisarmHook() bool {
+	s := cur
+	if s == nil || s.hookFn == nil {
+		return false
+	}
+	s.hookFn = nil
+	return true
+}
+
 // Stamp returns the next global event sequence number (for history stamps).
 //
 //go:norace
@@ -279,11 +373,35 @@ func taskMain(s *Sim, t *task, ready chan struct{}) {
 	runTask(t)
 	// visible edge task -> Run()'s caller only (ReleaseMerge does not order tasks among
 	// themselves)
-	s.wg.Done()
+	if !t.daemon {
+		s.wg.Done()
+	}
 	raceDisable()
 	t.g = 0
 	t.state = stDone
 	raceEnable()
+}
+
+// Go replaces `go f(...)` in the instrumented copy: a goroutine started by a task becomes a
+// task itself (its statements are scheduling points like everyone else's), so helper
+// goroutines of the code under test can be interleaved with their parents and siblings.
+// The real `go` statement inside keeps the parent->child happens-before edge a Go program
+// has. Started from a goroutine that is not a task, it is a plain `go`.
+//
+//go:norace
+func Go(fn func()) {
+	s, t := lookup()
+	if s == nil || t == nil {
+		go fn()
+		return
+	}
+	s.arrive(t)
+	nt := &task{id: len(s.tasks), park: make(chan struct{}), state: stParked, fn: fn, prio: t.prio, daemon: true}
+	s.tasks = append(s.tasks, nt)
+	s.res.Spawned++
+	ready := make(chan struct{})
+	go taskMain(s, nt, ready)
+	<-ready
 }
 
 func runTask(t *task) {
@@ -363,12 +481,16 @@ func Run(cfg Config, fns []func()) *Result {
 					runnable = append(runnable, t)
 				}
 			case stDone:
-				done++
+				if !t.daemon {
+					done++
+				}
 			case stRunning:
 				ext++
 			}
 		}
-		if done == n {
+		if done == n && len(runnable) == 0 {
+			// every task of the world has finished and no adopted goroutine can make progress
+			// on its own (each is finished or waiting for something outside the simulation)
 			break
 		}
 		if len(runnable) == 0 {
